@@ -189,6 +189,9 @@ func runC01(c *Ctx) {
 	v := loadVocab(c)
 	c.Res.Rule = "per kind and variant: required members plus every keyword alone (exhaustive), all keyword pairs (thorough), then random normal-form documents to depth 3 with nasty member names, x- extensions, unknown schema keywords and free-form payloads; decode+encode with the real types, compare as JSON values; non-trivial = document with at least one optional member; distinct by document text"
 	o := gen.DefaultOptions()
+	// ordering extensions on property schemas, as numbers and as numerals in strings: the encoder reads them to sort
+	// the properties and has to write them back as it found them
+	o.XOrder = true
 	g := gen.New(c.Rng, v, o)
 	ok, bad := 0, 0
 	run := func(kind string, doc wire.V, how string) {
